@@ -1,6 +1,7 @@
 package verifharness
 
 import (
+	"errors"
 	"fmt"
 	"net"
 	"sort"
@@ -9,6 +10,7 @@ import (
 	"time"
 
 	"github.com/Jigsaw-Code/outline-ss-server/verifrt/simnet"
+	"github.com/Jigsaw-Code/outline-ss-server/verifrt/simos"
 	"github.com/Jigsaw-Code/outline-ss-server/verifrt/simrt"
 )
 
@@ -105,6 +107,8 @@ func runC10(rc *RunCtx) {
 		nAttempts = 3 + G.Draw(2)
 	}
 	for at := 1; at <= nAttempts; at++ {
+		viaSignal := G.Draw(3) == 0
+		listenFailAt := 1 << 30
 		next := genCfg(G, U, good, 3)
 		forcePoison := -1
 		if script {
@@ -184,6 +188,7 @@ func runC10(rc *RunCtx) {
 		case "listen-fails":
 			// the j-th bind of this reload fails
 			j := G.Draw(4)
+			listenFailAt = j
 			n := 0
 			w.ListenFail = func(network, addr string) error {
 				n++
@@ -255,7 +260,20 @@ func runC10(rc *RunCtx) {
 		}
 		simrt.Sleep(time.Millisecond) // let earlier probes' handlers finish
 		tasksBefore := len(serverTasks())
-		lerr := ms.Srv.LoadConfigForVerif(ms.File)
+		var lerr error
+		if viaSignal {
+			// the operator's path: SIGHUP; the outcome is not reported to anyone, so
+			// the expected one is taken from the poison (a bind failure point that the
+			// reload never reached does not count)
+			simos.Kill(syscall.SIGHUP)
+			simrt.Sleep(200 * time.Millisecond)
+			if poison != "" && !(poison == "listen-fails" && nBinds <= listenFailAt) {
+				lerr = errors.New("(reload by SIGHUP: expected to fail)")
+			}
+			rc.Probe("reload_by_sighup")
+		} else {
+			lerr = ms.Srv.LoadConfigForVerif(ms.File)
+		}
 		if cleanup != nil {
 			cleanup()
 		}
